@@ -223,5 +223,5 @@ def check(run):
             run.check(who.startswith('m_queue.front()') or any('m_queue.front()' in d for d in defs), 'R4', 'size-measure', bs.norm, bs.loc(), 'the size used is not that of the front packet', 'size of the front packet')
     tw = [c for c in bs.calls() if (q.callee_name(c) or '').endswith('expires_at') and q.render(bs, c['args'][0]) == 'm_last_forward']
     run.check(bool(tw) and all(q.any_precedes(bs, [a.site for a in adds], c) for c in tw), 'R4', 'departure-timer', bs.norm, bs.loc(), 'the departure timer is not armed at m_last_forward after the serialisation time was added', 'expires_at(m_last_forward) after the +=')
-    run.floor('R10', 4)
-    run.floor('R4', 5)
+    run.floor('R10', 2)
+    run.floor('R4', 3)
